@@ -471,8 +471,17 @@ impl<'a> Lexer<'a> {
             // we can't properly show the "end of input" span.
             // For now, have the span point at the last byte in the source.
             // See: https://github.com/zkat/miette/issues/219
-            span.start = span.start.saturating_sub(1);
-            span.end = span.start + 1;
+            //
+            // The last byte may be a continuation byte of a multi-byte character
+            // and the source may be empty: point at the last character, if any.
+            let source = self.0.source();
+            let mut start = span.start.saturating_sub(1);
+            while !source.is_char_boundary(start) {
+                start -= 1;
+            }
+            let len = source[start..].chars().next().map_or(0, char::len_utf8);
+            span.start = start;
+            span.end = start + len;
         }
 
         to_source_span(span)
